@@ -454,6 +454,29 @@ pub fn run(ctx: &Ctx) -> i32 {
             }
         }
     });
+    // streams shorter than the four bytes that encoding detection would like to see: one-character
+    // documents, with and without the mark (document-less texts are left out: for them the UTF-8 slice
+    // path differs from every other path - the recorded finding C02-yaml-documentless-stream)
+    for text in ["7", "a", "-", "~", "x", "[1]", "a: 1", "\u{e9}", "\u{65e5}", "\u{1f600}"] {
+        let starts_ascii = text.chars().next().map(|c| c.is_ascii() && c != '\0').unwrap_or(false);
+        let yaml_detected = xt::verif::detect_slice(text.as_bytes()).ok().flatten().map(Fmt::from_xt) == Some(Fmt::Yaml);
+        for enc in ENCS {
+            for bom in [true, false] {
+                if !bom && !starts_ascii {
+                    continue;
+                }
+                for mode in [Mode::Slice, Mode::Reader(Sched::Fixed(1)), Mode::Reader(Sched::All)] {
+                    for to in [Fmt::Json, Fmt::Yaml] {
+                        acc.count("tiny_streams");
+                        translation_level(text, enc, bom, &mode, false, to, &mut acc);
+                        if yaml_detected {
+                            translation_level(text, enc, bom, &mode, true, to, &mut acc);
+                        }
+                    }
+                }
+            }
+        }
+    }
     ev::run_isolated("c07-enum", &["--tier".into(), ctx.tier.clone(), "--seed".into(), ctx.seed.to_string()], "exhaustive re-encoder enumeration", &mut acc);
     let rule = format!("(a) {} generated YAML streams (1-3 documents, hostile scalars, every spelling feature) x one encoding in turn x [BOM, no BOM when the text starts with ASCII] x [slice, reader fixed(1..9), reader random] x [explicit, detected], compared with the same text in UTF-8; (b) exhaustive at the re-encoder hook: all 63 488 non-surrogate UTF-16 units, all 1 048 576 surrogate pairs, all 1 112 064 UTF-32 scalar values, both byte orders, with/without BOM, input buffer capacities and output buffer sizes varied ({} variants each), against a std-based reference decoder; ill-formed classes: EVERY ordered pair of surrogate units that is not a well-formed pair (thorough: all 3 145 728; quick: a sixteenth of the first units x all second units), every surrogate value as lone lead / lead+non-trail / lead+lead / lone trail / reversed pair, truncated units, every UTF-32 value in D800..DFFF, values >= 0x110000; distinct non-trivial = distinct texts plus distinct enumeration blocks", n_texts, if ctx.thorough() { 11 } else { 2 });
     let mut extra = serde_json::Map::new();
